@@ -234,3 +234,19 @@ Definition meanfield_flat (which : bool) (alpha beta gamma start dt a0 : float) 
   let r := if which then mft float PrimFloat.add PrimFloat.mul fhalf fnat (feom alpha beta gamma) start dt N 0 a0
            else cdwf float PrimFloat.add PrimFloat.mul fhalf fnat (feom alpha beta gamma) start dt N a0 in
   flat_map flat_fbits (fst r) ++ [888%Z] ++ flat_calls (snd r).
+
+(* ---- imaginary-time (Gibbs) path sum (C11) --------------------------------------------------- *)
+(* TIBaseBackend with coefficients c_k = -m_k ln 2 and coupling eigenvalues o (non-negative
+   integers): every weight exp(-c_k o_a o_b) is the integer 2^(m_k o_a o_b).  Column b of the
+   un-normalised state after n slices is the path sum started from the unit vector e_b with
+   identity basis change and half-step propagator P on both sides of every slice. *)
+Definition zmat := list (list Z).
+Definition pow2w (mk : Z) (oa ob : Z) : Z := (2 ^ (mk * oa * ob))%Z.
+Definition gibbs_flat (d : nat) (P : zmat) (o ms : list Z) (n : nat) : list Z :=
+  let W := fun dk => map (fun a => map (fun b => pow2w (nth dk ms 0%Z) (nth a o 0%Z) (nth b o 0%Z)) (seq 0 d)) (seq 0 d) in
+  let col := fun b =>
+    @state ZRing d (fun j => pow2w (nth 0 ms 0%Z) (nth j o 0%Z) (nth j o 0%Z))
+           (fun kp k => Some (W (k - kp)%nat)) (@mid ZRing d) (@mid ZRing d) (fun _ => (P, P))
+           (map (fun i => if Nat.eqb i b then 1%Z else 0%Z) (seq 0 d)) n in
+  (* row-major: entry (a, b) = (col b)[a] *)
+  flat_map (fun a => map (fun b => nth a (col b) 0%Z) (seq 0 d)) (seq 0 d).
